@@ -14,7 +14,7 @@ EXPLANATION = (
     "recent.len() + frequent.len() >= size; replace's choice of the recent list must be justified on the path by recent.len() > 0 and "
     "(recent.len() > p or (recent.len() == p and the frequent-ghost flag)), the choice of the frequent list by the negation; the flag is true "
     "exactly at the frequent-ghost call site; the victim is the list's LRU end and goes to the matching ghost list; the other list is used "
-    "only after the chosen one was found empty, and both fallback directions exist. R4: the hit node leaves its ghost list before anything is "
+    "only after the chosen one was found empty, and both fallback directions exist; on a miss the ghost-trim tests read the ghost lengths as of the start of the put. R4: the hit node leaves its ghost list before anything is "
     "inserted into that ghost list. History-level conformance with ARC is not decided."
 )
 TRUSTED_BASE = ["as C03"]
@@ -171,6 +171,15 @@ def route(cx, chk, cfg, F, f, name):
             if [x for x in v.of("store-p")]:
                 pass
             replace_rule(v, p, bad, cls, want_flag=False, exclude=set(fresh), fallbacks=fallbacks)
+            # ghost trimming is decided on the ghost lengths as they were when the put started: replace() has just pushed this put's
+            # victim onto a ghost list, and a test on the live length forgets a ghost one step early (the victim itself when p == 0)
+            for c, t, e in cond_facts(p):
+                if isinstance(c, tuple) and c[0] == "bin" and c[1] in ("Gt", "Ge", "Lt", "Le", "Eq", "Ne"):
+                    for a, b in ((c[2], c[3]), (c[3], c[2])):
+                        if (isinstance(a, tuple) and a[0] == "len" and a[1] in (lenterm(B1)[1], lenterm(B2)[1]) and a[2] != 0
+                                and any(isinstance(x, tuple) and x[0] == "load" and x[1] in (P0[1], SIZE[1]) for x in subterms(b))):
+                            bad("C09.R3", "ghost-trim-live-length", "the ghost list %s is trimmed by a test on its length after this put's victim was pushed onto it (%s): an evicted entry is forgotten one step early" % (
+                                a[1][2][0] if len(a[1]) > 2 else a[1], fmt_val(c)[:80]), e.get("ln"))
         counts[cls] = counts.get(cls, 0) + 1
     need = {"put": ("hit-recent", "hit-frequent", "ghost-hit-recent_evict", "ghost-hit-frequent_evict", "miss"), "get": ("hit-recent", "hit-frequent", "miss"),
             "get_mut": ("hit-recent", "hit-frequent", "miss")}[name]
